@@ -44,7 +44,7 @@ class C08(PropBase):
                       "sasl_round_then_rebind", "bind_response_refused_while_BI", "client_closed_calls", "server_closed_calls",
                       "receive_after_closure", "closed_by_unbind", "closed_by_notice", "closed_by_protocol_error",
                       "search_outstanding_then_bind_c", "search_outstanding_then_bind_s", "request_while_server_BI",
-                      "client_bind_completed", "client_bind_completed_nonzero_code")
+                      "client_bind_completed", "client_bind_completed_nonzero_code", "invalid_payload_delivered")
     REQUIRED_CELLS = tuple("closed/c/%s" % m for m, _ in CLIENT_CALLS) + tuple(
         "closed/s/%s" % m for m in ("bind_response", "extended_response", "search_result_entry", "search_result_reference",
                                     "search_result_done", "unbind")) + tuple(
@@ -54,7 +54,7 @@ class C08(PropBase):
 
     def init_op(self, rng):
         return {"op": "init", "sessions": [{"name": "c", "role": "c", "peer": "s"}, {"name": "s", "role": "s", "peer": "c"}],
-                "observe_pending": True, "follow": True, "real_stream": True, "illegal_p": rng.choice([0.05, 0.2, 0.5]), "byz_p": rng.choice([0.0, 0.0, 0.02, 0.06]),
+                "observe_pending": True, "follow": True, "real_stream": True, "invalid_units": True, "illegal_p": rng.choice([0.05, 0.2, 0.5]), "byz_p": rng.choice([0.0, 0.0, 0.02, 0.06]),
                 "chunk": rng.choice(["whole", "mixed", "mixed", "byte"]), "term_p": rng.choice([0.0, 0.0, 0.01, 0.04]),
                 "max_out": rng.choice([1, 2, 3, 6]),
                 "big": rng.choice([0.02, 0.1]), "style": policy.wire_style(rng)}
@@ -122,6 +122,11 @@ class C08(PropBase):
         w = st.w
         c, s = w.s["c"], w.s["s"]
         st.x["byz_id"] += 1
+        g.odd_known = True
+        g.invalid_known = True
+        if rng.random() < 0.15:
+            # an invalid payload: a complete unit that is not an LDAPMessage -> the receiving session must close
+            return {"op": "inject", "to": rng.choice(["c", "s"]), "hex": policy.garbage_unit(rng)}
         if rng.random() < 0.5:
             # towards the server
             r = rng.random()
@@ -264,6 +269,8 @@ class C08(PropBase):
         walk = pre.clone()
         offender = None
         for lt in lights:
+            if lt.get("invalid"):
+                st.hit("invalid_payload_delivered")
             if role == "s":
                 if lt["kind"] == "BindRequest" and walk.out:
                     st.hit("server_got_bind_while_busy")
@@ -291,7 +298,7 @@ class C08(PropBase):
                 return
             self.diverge_unless(dict(ev, sync=False), "receive raised %s (C05's statement)" % ev["exc"]["type"])
         if exp[0] == "error" and okk:
-            raise Violation(P, "illegal-delivery-accepted/%s/%s/%s" % (role, offender["kind"], pre.st),
+            raise Violation(P, "illegal-delivery-accepted/%s/%s/%s" % (role, offender["kind"] or ("invalid-payload" if offender.get("invalid") else "unknown-op"), pre.st),
                             "%s in model state %s (in progress %s) accepted %s id %s, which the documented state machine refuses" % (
                                 "client" if role == "c" else "server", pre.st, sorted(pre.out), offender["kind"], offender["id"]))
         if exp[0] == "ok" and not okk:
